@@ -78,10 +78,15 @@ theorem RepW_fold (cnf : CNF) (ns : List (Label × Name × Key)) (c : Circuit) (
 theorem loadNnf_repW (c : Circuit) (cnf : CNF) (ns : List (Label × Name × Key)) (hn : litsNormal cnf c = true) :
     RepW cnf (loadNnf c cnf ns).store := by
   rw [loadNnf_eq]
-  obtain ⟨_, h2, h3, _⟩ := loadFinish_fields cnf ns (c.foldl (loadStep cnf ns) (⟨loadInit, []⟩, []))
+  obtain ⟨_, h2, h3, _⟩ := loadFinish_fields cnf ns
+    (loadRoot c (c.foldl (loadStep cnf ns) (⟨loadInit, []⟩, [])).1, (c.foldl (loadStep cnf ns) (⟨loadInit, []⟩, [])).2)
+  obtain ⟨r1, r2, _⟩ := loadRoot_fields c (c.foldl (loadStep cnf ns) (⟨loadInit, []⟩, [])).1
   intro x i hx
   rw [h2] at hx
   rw [h3]
+  simp only at hx ⊢
+  rw [r1] at hx
+  rw [r2]
   exact (RepW_fold cnf ns c hn).2 x i hx
 
 /-- **constraints carried over**: the loaded AD constraints are the CNF's, members renamed by `atomOf` -/
@@ -90,8 +95,8 @@ theorem loadNnf_ads (c : Circuit) (cnf : CNF) (ns : List (Label × Name × Key))
       { a with nodes := a.nodes.map (atomOf (loadNnf c cnf ns).store),
                extra := a.extra.map (atomOf (loadNnf c cnf ns).store) }) := by
   rw [loadNnf_eq]
-  generalize c.foldl (loadStep cnf ns) (⟨loadInit, []⟩, []) = st
-  obtain ⟨ld, seen⟩ := st
+  generalize loadRoot c (c.foldl (loadStep cnf ns) (⟨loadInit, []⟩, [])).1 = ld
+  generalize (c.foldl (loadStep cnf ns) (⟨loadInit, []⟩, [])).2 = seen
   rfl
 
 end ProbLogProofs.DDNNF
